@@ -13,7 +13,9 @@ class P:
     shard = 25
     rule = ("results with 0-20 containers (well above the 8-entry palette), several streams per container, streams without a container label, "
             "0-6 entries per stream, timestamps with heavy ties, unsorted stream values, messages with embedded/trailing CR/LF runs, escape bytes and "
-            "invalid UTF-8; all 8 combinations of timestamp/container/colour. Non-trivial = at least two entries; distinct = distinct (opts, streams).")
+            "invalid UTF-8; all 8 combinations of timestamp/container/colour; one case in sixteen renders 180-360 entries; one in ten goes through the real `query` command "
+            "(flags --timestamp / -t, --container / -c, --color parsed by cobra, Docker querier over a fake daemon serving multiplexed frames, engine, renderResult) and its standard output "
+            "must be the model's rendering under the options the flags denote. Non-trivial = at least two entries; distinct = distinct (opts, streams).")
     trusted = ["time.Time.AppendFormat(RFC3339Nano) with TZ=UTC modelled by Base/TimeFmt.fmt_ts", "package-main hook calling renderResult with a bytes.Buffer"]
     assumptions = ["local time zone is UTC (the harness sets TZ=UTC)", "order among entries with equal timestamps is unspecified (slices.SortFunc); compared up to that order"]
     env = {"TZ": "UTC"}
@@ -41,12 +43,40 @@ class P:
                     if rng.random() < 0.7:
                         vals.sort(key=lambda v: v[0])
                     streams.append({"labels": labels, "values": vals})
+            if k % 16 == 15:
+                # hundreds of entries: far more output than any buffer the renderer might batch lines in
+                streams = [{"labels": [["container", "big%d" % i]], "values": [[BASE + (j * 3 + i) * 10**6, b"line %d of container %d" % (j, i)] for j in range(rng.choice([60, 120]))]} for i in range(3)]
+            if k % 10 == 9:
+                # the options as the `query` command reads them from its flags (--timestamp / -t, --container / -c, --color), the whole way:
+                # flags -> Docker querier -> engine -> renderResult
+                nc = rng.randint(1, 4)
+                ctrs, t = [], BASE
+                order = list(range(nc)) * rng.randint(1, 3)
+                rng.shuffle(order)
+                recs = {i: [] for i in range(nc)}
+                for i in order:
+                    t += rng.choice([1, 10**6, 10**9])
+                    recs[i].append([str(t), b64e(rng.choice([b"hello", b"GET /a 200", b"x y  z", b"tab\there"]) + b"\n")])
+                for i in range(nc):
+                    ctrs.append({"id": "id%d" % i, "name": rng.choice(["web", "api", "db", "c"]) + str(i), "recs": recs[i]})
+                tflag = rng.choice([None, "--timestamp=false", "-t=false", "--timestamp=true"])
+                cflag = rng.choice([None, "--container=false", "-c=false", "--container=true"])
+                colflag = rng.choice([None, None, "--color=true", "--color=false"])
+                opts = [tflag is None or tflag.endswith("true"), cflag is None or cflag.endswith("true"), colflag == "--color=true"]
+                streams = sorted(({"labels": [["container", c["name"]]], "values": [[int(ts), b64d(l)] for ts, l in c["recs"]]} for c in ctrs if c["recs"]),
+                                 key=lambda s: s["values"][0][0])
+                cases.append({"opts": opts, "cmd_args": [b64e(a) for a in (tflag, cflag, colflag) if a] + [b64e("--start=%d" % (BASE - 10**9)), b64e("--end=%d" % (t + 10**9)), b64e("{}")],
+                              "cmd_ctrs": ctrs,
+                              "streams": [{"labels": [[b64e(a), b64e(b)] for a, b in s["labels"]], "values": [[str(t2), b64e(m)] for t2, m in s["values"]]} for s in streams]})
+                continue
             opts = [bool(k & 1), bool(k & 2), bool(k & 4)]
             cases.append({"opts": opts, "streams": [{"labels": [[b64e(a), b64e(b)] for a, b in s["labels"]],
                                                      "values": [[str(t), b64e(m)] for t, m in s["values"]]} for s in streams]})
         return cases
 
     def request(self, c):
+        if "cmd_args" in c:
+            return {"cmd": "querycmd", "args": c["cmd_args"], "ctrs": c["cmd_ctrs"]}
         return dict(c, cmd="render")
 
     def to_coq(self, c, r):
@@ -60,6 +90,8 @@ class P:
                     cont = b64d(v)
             ss.append(cpair(cbytes(cont), clist(cpair(cZ(int(t)), cbytes(b64d(m))) for t, m in s["values"])))
         o = c["opts"]
+        if "cmd_args" in c:
+            r = dict(r, out=r.get("stdout", ""))
         return "mk {| o_timestamp := %s; o_container := %s; o_color := %s |} %s %s" % (
             cbool(o[0]), cbool(o[1]), cbool(o[2]), clist(ss), cbytes(b64d(r["out"])))
 
@@ -72,7 +104,7 @@ class P:
     def sample(self, c, r):
         return {"opts(timestamp,container,color)": c["opts"], "streams": len(c["streams"]),
                 "entries": sum(len(s["values"]) for s in c["streams"]),
-                "output_head": repr(b64d(r.get("out", ""))[:160]), "outcome": r.get("outcome")}
+                "output_head": repr(b64d(r.get("out", r.get("stdout", "")))[:160]), "outcome": r.get("outcome"), "through_command": "cmd_args" in c}
 
     def distribution(self, cases, resps):
         d = {"containers>8_with_colour": 0, "entries": 0, "opts": {}, "outcomes": {}}
